@@ -17,6 +17,7 @@ Val(s, v) == [k |-> "val", s |-> s, v |-> v]
 Val2(s, a, b) == [k |-> "val2", s |-> s, a |-> a, b |-> b]   \* both invocations carry the option, with different values
 Pos(i, v) == [k |-> "pos", i |-> i, v |-> v]
 In(v) == [k |-> "input", v |-> v]
+Perm == [k |-> "perm"]      \* the first two positional arguments swapped
 Fmt == Val("-F", "fasta")
 
 C(cmd, pos, input, dims) == [cmd |-> cmd, pos |-> pos, input |-> input, dims |-> dims]
@@ -28,6 +29,8 @@ Commands == <<
   C("define", <<"misc_feature", "10..20">>, "phix", <<Pos(1, "gene"), Pos(2, "30..40"), Val("-q", "note=x"), Val2("-q", "note=x", "note=y"), In("part"), Fmt>>),
   C("delete", <<"CDS">>, "phix", <<Flag("-e"), Pos(1, "gene"), In("part"), Fmt>>),
   C("extract", <<"CDS">>, "phix", <<Flag("-v"), Pos(1, "gene"), In("part"), Fmt, Val2("-F", "fasta", "genbank")>>),
+  C("extract", <<"1..10", "21..40">>, "phix", <<Perm, Pos(2, "31..50")>>),
+  C("select", <<"CDS", "gene">>, "phix", <<Perm, Pos(2, "source")>>),
   C("infix", <<"^+10", "{file:part}">>, "guest", <<Flag("-e"), Pos(1, "^+20"), Pos(2, "{file:ecoli}"), In("guest2"), Fmt>>),
   C("insert", <<"^+10", "@acgtacgt">>, "phix", <<Flag("-e"), Pos(1, "^+20"), Pos(2, "@ggccggcc"), In("part"), Fmt>>),
   C("join", <<>>, "two", <<Flag("-c"), In("phix"), Fmt>>),
@@ -56,6 +59,7 @@ Neighbour(c, d) ==
     [] d.k = "flag"  -> [cmd |-> c.cmd, args |-> <<d.s>> \o c.pos, input |-> c.input]
     [] d.k = "val"   -> [cmd |-> c.cmd, args |-> <<d.s, d.v>> \o c.pos, input |-> c.input]
     [] d.k = "pos"   -> [cmd |-> c.cmd, args |-> [c.pos EXCEPT ![d.i] = d.v], input |-> c.input]
+    [] d.k = "perm"  -> [cmd |-> c.cmd, args |-> [c.pos EXCEPT ![1] = c.pos[2], ![2] = c.pos[1]], input |-> c.input]
     [] d.k = "input" -> [cmd |-> c.cmd, args |-> c.pos, input |-> d.v]
 
 RECURSIVE JoinS(_)
